@@ -158,6 +158,8 @@ func (x *c03World) Enabled() []bfs.Op {
 		}
 	}
 	ops = append(ops, bfs.Op{Name: "ok", Arg: "1/none", Arg2: "1"}, bfs.Op{Name: "ok", Arg: "2/short-empty", Arg2: "315360000"})
+	// the CA answers successfully with nothing usable: no certificate at all, or plain public keys only
+	ops = append(ops, bfs.Op{Name: "ok-empty"}, bfs.Op{Name: "ok-plainkeys"})
 	// the CA grants less than requested to some certificates of one reply (every order of short and full validities)
 	ops = append(ops, bfs.Op{Name: "ok", Arg: "2/none/short-first", Arg2: "43200"}, bfs.Op{Name: "ok", Arg: "2/none/short-last", Arg2: "43200"},
 		bfs.Op{Name: "ok", Arg: "3/long/short-middle", Arg2: "315360000"}, bfs.Op{Name: "ok", Arg: "3/none/short-first", Arg2: "43200"})
@@ -261,6 +263,10 @@ func (x *c03World) Apply(op bfs.Op) (fs []bfs.Finding) {
 				e.ca.Granted[1] = 600
 			}
 		}
+	case "ok-empty":
+		e.ca.Script[len(e.ca.Reqs)] = "empty"
+	case "ok-plainkeys":
+		e.ca.Script[len(e.ca.Reqs)] = "plainkeys"
 	case "fail-auth":
 		e.adv.Behaviour = "failure"
 	case "fail-generate-agent":
@@ -345,7 +351,7 @@ func (x *c03World) Apply(op bfs.Op) (fs []bfs.Finding) {
 			}
 		}
 	}
-	if op.Name == "ok" && err != nil {
+	if strings.HasPrefix(op.Name, "ok") && err != nil {
 		add("harness:unexpected-outcome:"+op.Name, fmt.Sprintf("scripted %s but the run returned %v", op.Name, err))
 		return
 	}
@@ -359,7 +365,10 @@ func (x *c03World) Apply(op bfs.Op) (fs []bfs.Finding) {
 		}
 		issuedSet := map[string]bool{}
 		for _, ct := range issued {
-			cert := ct.(*ssh.Certificate)
+			cert, isCert := ct.(*ssh.Certificate)
+			if !isCert {
+				continue // the CA returned a plain public key: nothing to install
+			}
 			blob := cert.Marshal()
 			issuedSet[string(blob)] = true
 			if !e.ua.Ring.Has(blob) {
@@ -405,7 +414,7 @@ func (x *c03World) Apply(op bfs.Op) (fs []bfs.Finding) {
 
 func checkC03(c *ev.Ctx) {
 	defer cleanupScratch()
-	c.Rule("E1 BFS over sequences of real gensign.Run executions against one agent: transitions = success with the CA returning 1..3 certificates x comment lists {none, shorter with empty strings, longer} and validity {1 s, 12 h, 10 y}, incl. replies in which the CA grants 10 min to the first / middle / last certificate only; failure at authentication, at private-key insertion, missing key slot, CA error, agent failure at list / certificate add (thorough: remove, CA panic); roots = all 32 subsets of {plain key, foreign certificate, 3 near-miss comments} over a plain key store, plus 6 roots with the documented key_label option set, plus 6 behind the real shim agent (virtual clock; fault-free and pre-signing-failure transitions); state = canonical identity multiset (class, generation age, comment, lifetime). non-trivial = successful run, or failed run with certificates at stake; distinct by (state, transition)")
+	c.Rule("E1 BFS over sequences of real gensign.Run executions against one agent: transitions = success with the CA returning 1..3 certificates (or, successfully, none / only plain public keys) x comment lists {none, shorter with empty strings, longer} and validity {1 s, 12 h, 10 y}, incl. replies in which the CA grants 10 min to the first / middle / last certificate only; failure at authentication, at private-key insertion, missing key slot, CA error, agent failure at list / certificate add (thorough: remove, CA panic); roots = all 32 subsets of {plain key, foreign certificate, 3 near-miss comments} over a plain key store, plus 6 roots with the documented key_label option set, plus 6 behind the real shim agent (virtual clock; fault-free and pre-signing-failure transitions); state = canonical identity multiset (class, generation age, comment, lifetime). non-trivial = successful run, or failed run with certificates at stake; distinct by (state, transition)")
 	c.Assume("identities whose comment contains the handler name inside a longer word are don't-care", "lifetime constraints are read from the add-identity requests as parsed by x/crypto's agent server")
 	var roots []string
 	for m := 0; m < 32; m++ {
